@@ -174,6 +174,12 @@ func directedValues() []dval {
 	add("zero-size/map-of-empty-struct", map[Empty]Empty{{}: {}}, map[NArr0]Empty{{}: {}})
 	add("zero-size/slice-of-empty-array", [][0]int{{}, {}}, []NArr0{{}})
 	add("zero-size/empty-struct", Empty{}, Mid{}.Em)
+	// zero-size elements next to a custom marshaler in a message larger than the pooled buffer: must be attributed to
+	// the trailing-bytes guard, not to the marshaler (the map variants fail or hold depending on iteration order)
+	big := MEDF{P: make([]byte, 5000), tag: 1}
+	addTop("zero-size/after-big-marshaler/slice", []any{big, []Empty{{}, {}, {}}})
+	addTop("zero-size/after-big-marshaler/map", map[int32]any{1: big, 2: []Empty{{}, {}, {}}, 3: MEDFStr("m")})
+	addTop("zero-size/after-big-marshaler/NMapIA", NMapIA{1: NSliceM{big, big}, 2: NSliceEmpty{{}, {}, {}, {}}, 3: [2]map[Empty]uint32{{{}: 1}, {{}: 2}}})
 
 	// atoms
 	for _, n := range []int{0, 1, 254, 255, 256} {
